@@ -1464,7 +1464,9 @@ func c14FinishedMeansPublishedOrDiscarded(p *Prog, r *Report, rule string) {
 				continue
 			}
 			st := f.ErrStatesFrom(s.Node, s.ErrVar)
-			reach := f.Reach(f.succsOf(s.Node), func(n *GNode) bool { return finish[n.ID] }, nil)
+			// (nil facts: a nil-passing wrapper `failed(step, err)` spliced in after `if err != nil` does not take its
+			// own "err == nil" exit)
+			reach := f.ReachNil(f.succsOf(s.Node), func(n *GNode) bool { return finish[n.ID] })
 			bad := ""
 			for _, id := range f.ReturnNodes() {
 				// a return reached without a finishing call, and not on the failure path of Delete itself
